@@ -374,14 +374,18 @@ func UUIDValue(info Info, data []byte) (Info, error) {
 			}...)
 		case 2:
 			info.Description = "UUID v2 (DCE)"
-			t := time.Unix(u.Time().UnixTime()).UTC()
+			// DCE 1.1: the time_low field holds the local identifier and the clock_seq_low octet the domain, so the
+			// timestamp consists of time_mid and time_hi only and the clock sequence of the 6 bits below the variant
+			// (the library's Time() and ClockSequence() read the version 1 layout)
+			ts := uuid.Time(int64(binary.BigEndian.Uint16(u[4:6]))<<32 | int64(binary.BigEndian.Uint16(u[6:8])&0x0fff)<<48)
+			t := time.Unix(ts.UnixTime()).UTC()
 			info.Attributes = append(info.Attributes, []Attribute{
 				{"Domain", u.Domain().String()},
 				{"Id", fmt.Sprintf("%d", u.ID())},
 				{"Node id", hex.EncodeToString(u.NodeID())},
-				{"Time (raw)", fmt.Sprintf("%d", u.Time())},
+				{"Time (raw)", fmt.Sprintf("%d", ts)},
 				{"Time (UTC)", t.Format("2006-01-02 15:04:05.9999999")},
-				{"Clock sequence", fmt.Sprintf("%d", u.ClockSequence())},
+				{"Clock sequence", fmt.Sprintf("%d", u[8]&0x3f)},
 			}...)
 		case 3:
 			info.Description = "UUID v3 (MD5)"
@@ -408,6 +412,8 @@ func UUIDValue(info Info, data []byte) (Info, error) {
 				{"Time (raw)", fmt.Sprintf("%d", u.Time())},
 				{"Time (UTC)", t.Format("2006-01-02 15:04:05.9999999")},
 			}...)
+		case 8:
+			info.Description = "UUID v8 (custom)"
 		case 15:
 			if u.String() == uuid.Max.String() {
 				info.Description = "UUID (Max UUID)"
